@@ -36,6 +36,8 @@ type Fault struct {
 	Kind  FaultKind
 	Code  string // SQLSTATE for FError (default 57014)
 	Delay time.Duration
+	// Call (with FDelay): run before the operation with the store lock released, e.g. another session's transaction
+	Call func()
 }
 
 // Op is one client-visible operation: a statement of a simple query, an
@@ -475,6 +477,9 @@ func (c *conn) runStatement(p *prepared, bp *boundParams) (rs *rowset, tag strin
 	case FDelay:
 		s.mu.Unlock()
 		time.Sleep(f.Delay)
+		if f.Call != nil {
+			f.Call()
+		}
 		s.mu.Lock()
 	case FDropBefore:
 		return nil, "", nil, true
